@@ -7,6 +7,10 @@ use serde_json::{json, Value};
 pub mod util;
 pub mod c18;
 pub mod c17;
+pub mod c14;
+pub mod c11;
+pub mod refastro;
+pub mod e2e;
 
 pub struct Report {
     pub name: String,
@@ -48,6 +52,8 @@ pub struct Args {
 }
 
 pub fn main() {
+    // panics inside the library are caught (catch_unwind) and reported as failures; keep stderr quiet
+    std::panic::set_hook(Box::new(|_| {}));
     let a: Vec<String> = std::env::args().collect();
     if a.len() < 2 {
         eprintln!("usage: rtcheck <check> [--seed n] [--tier quick|thorough] [...]");
@@ -72,6 +78,18 @@ pub fn main() {
     let rep = match args.name.as_str() {
         "c18_corpus" => c18::corpus(&args),
         "c17_sweep" => c17::sweep(&args),
+        "c14_ranges" => c14::ranges(&args),
+        "c11_seconds" => c11::seconds(&args),
+        "c01_dhuhr" => e2e::c01_dhuhr(&args),
+        "c02_sunrise" => e2e::c02_sunrise(&args),
+        "c03_twilight" => e2e::c03_twilight(&args),
+        "c04_asr" => e2e::c04_asr(&args),
+        "c05_order" => e2e::c05_order(&args),
+        "c06_validity" => e2e::c06_validity(&args),
+        "c13_smooth" => e2e::c13_smooth(&args),
+        "c20_zones" => e2e::c20_zones(&args),
+        "c16_qibla" => e2e::c16_qibla(&args),
+        "c09_neargood" => e2e::c09_neargood(&args),
         other => {
             eprintln!("unknown check {}", other);
             std::process::exit(2);
